@@ -32,7 +32,7 @@ def special_packets(rnd):
         src, dst = rnd.randbytes(4), rnd.randbytes(4)
         c, st = P.coap(rnd)
         u = P.udp(rnd, c, csum=lambda x: P.udp_checksum_v4(src, dst, x))
-        for target in (0x0000, 0xffff, 0x0001):
+        for target in (0x0000, 0xffff, 0x0001, 0x0002, 0xfffe, 0xfffd, 0xfffc, 0xfffb, 0x8000):
             base = struct.pack('!BBHHHBBH', 0x45, rnd.randrange(256), 20 + len(u), 0, rnd.randrange(65536), rnd.randrange(256), 17, 0) + src + dst
             c0 = P.csum16(base)            # checksum with ident = 0
             # adding ident x to the sum: want csum == target  <=>  ~(sum + x) == target
@@ -86,6 +86,21 @@ def run(rep, tier, seed):
     for i in range(n):
         stack, pkt, st, pd = gen_parsed(rnd, STACKS[i % len(STACKS)])
         items.append((stack, pkt, pd))
+    # large datagrams: more than a thousand 8-bit and 16-bit chunks (payload 1100..1400 bytes)
+    for k in range(4 if tier == 'quick' else 40):
+        big = rnd.randbytes(rnd.randint(1100, 1400))
+        if k % 2:
+            src, dst = rnd.randbytes(16), rnd.randbytes(16)
+            c, st = P.coap(rnd, payload=big)
+            u = P.udp(rnd, c, csum=lambda x: P.udp_checksum_v6(src, dst, x))
+            pkt = P.ipv6(rnd, u, 17, src, dst)
+            stack = 'IPv6-UDP-CoAP'
+        else:
+            chunk = struct.pack('!BBH', 0, 3, 16 + len(big)) + rnd.randbytes(12) + big
+            pkt, st = P.sctp(rnd, chunks=[(P.pad4(chunk), {})])
+            stack = 'SCTP'
+        items.append((stack, pkt, parser_for(stack).parse(Buffer(pkt, len(pkt) * 8))))
+        rep.hist['large-packets'] = rep.hist.get('large-packets', 0) + 1
     for stack, pkt in special_packets(rnd):
         items.append((stack, pkt, parser_for(stack).parse(Buffer(pkt, len(pkt) * 8))))
         rep.hist['special-packets'] = rep.hist.get('special-packets', 0) + 1
